@@ -6,6 +6,7 @@ mod model;
 mod node;
 mod rng;
 mod t1;
+mod t3;
 mod t8;
 mod trace;
 
